@@ -20,6 +20,9 @@ vectorised forms, dict dispatch, ...) does not enter.
      field gradient contracts the node axis;
   f  tabulated rules: for every integer degree the triangle rule accepts, the table it returns has positive weights, points in the
      reference triangle and exact monomial moments a! b!/(a+b+2)! up to that degree; the 1D rule takes n Gauss points with 2n-1 >= degree;
+     every other factory of the rule module that returns a QuadratureRule for a requested degree (found by what it returns, e.g. the
+     padded fixed-size 1D rule whose tables are selected by lax.switch) has exact monomial moments up to that degree as well -- nodes and
+     weights are checked as pairs -- within the capacity 2N-1 of a fixed-size rule;
   g  edge integration: sum_q f(u(s_q), X(s_q), n) |t| w_q with u, X interpolated by the same 1D shape functions at the rule's points over
      the nodes conns[element, faceNodes[side]], n = outward normal, |t| = edge length.
 Not decided: partition of unity / reproduction by the Vandermonde inversion (numerical linear algebra), the divergence theorem on
@@ -62,6 +65,7 @@ def run(ctx):
     ctx.guard(e_axis_typing, ctx)
     ctx.guard(f_tables, ctx)
     ctx.guard(f_rule_1d, ctx)
+    ctx.guard(f_sibling_factories, ctx)
     ctx.guard(g_edges, ctx)
     from . import C16, C13
     ctx.guard(C16.o1_normals, _Ren(ctx, "d/"))
@@ -876,6 +880,173 @@ def f_rule_1d(ctx):
                    bad_detail=f"eval_at_iso_points: {describe(r[0])}")
 
 
+def _constructs_class(ctx, fn, cls):
+    """call-graph fact: some scope reachable from `fn` refers to the class `cls` (so `fn` may build an instance of it)"""
+    from optilint.model import ClassVal, walk_local
+    try:
+        cone = ctx.cg.cone([fn], by_attr_name=False)
+    except Exception:       # noqa: BLE001 -- fail closed: treat as "may construct"
+        return True
+    for s in cone:
+        for n in walk_local(s.node):
+            if isinstance(n, (ast.Name, ast.Attribute)) and isinstance(getattr(n, "ctx", None), ast.Load):
+                try:
+                    vals = ctx.repo.resolve(n, s)
+                except Exception:   # noqa: BLE001
+                    continue
+                if any(isinstance(v, ClassVal) and v.scope is cls for v in vals):
+                    return True
+    return False
+
+
+def _accepts_rule(ctx, fn):
+    """interpretation fact: called with a generic rule (record, or (points, weights) pair) instead of a degree, `fn` runs through"""
+    for mk in ("record", "pair"):
+        try:
+            I = fresh_interp(ctx.repo, lobatto=False)
+            I.tolerant = False
+            xi, w = sym_arr("probe_s", (3,)), sym_arr("probe_w", (3,))
+            arg = quadrature_rule(I, xi, w) if mk == "record" else (xi, w)
+            I.call(fn_value(I, fn.qualname), [arg], {})
+            return True
+        except ERRS:
+            continue
+    return False
+
+
+def _moment_error_1d(cx, cw, d):
+    """(largest error, k) of  sum_i w_i x_i^k = 1/(k+1),  k = 0..d  (exact rationals)"""
+    return max((abs(sum(wi * xi_ ** k for wi, xi_ in zip(cw, cx)) - Fraction(1, k + 1)), k) for k in range(d + 1))
+
+
+def _moment_error_2d(X, W, d):
+    worst = None
+    for a in range(d + 1):
+        for b in range(d + 1 - a):
+            exact = Fraction(math.factorial(a) * math.factorial(b), math.factorial(a + b + 2))
+            got = sum(wq * (p[0] ** a) * (p[1] ** b) for wq, p in zip(W, X))
+            err = abs(got - exact)
+            if worst is None or err > worst[0]:
+                worst = (err, a, b)
+    return worst
+
+
+def f_sibling_factories(ctx):
+    """Every *other* way the rule module offers to obtain a QuadratureRule from a requested degree (padded / fixed-size / alternative
+    factories) must keep the same promise as the two main factories: the rule it returns for degree d integrates every monomial of degree
+    <= d exactly over the reference domain ([0,1] for 1D points, the unit triangle for 2D points).  The factories are found by what they
+    return (an instance of the rule class), the tables by interpretation (wherever they live: branch functions of a lax.switch, helper
+    functions, module constants); nodes and weights enter only through the moments, i.e. as *pairs*.
+
+    Range of degrees: a factory whose result has the same number N of entries for every degree (padded to a fixed size) cannot hold more
+    than N Gauss points, hence cannot be exact beyond degree 2N-1 (1D); beyond that capacity nothing is required.  A degree the factory
+    refuses (raises) is outside its range."""
+    rule = "f/T7-quadrature-tables"
+    mod = ctx.need_module(QR)
+    cls = ctx.need(f"{QR}:QuadratureRule")
+    main = {"create_quadrature_rule_1D", "create_quadrature_rule_on_triangle"}
+    tol = Fraction(2, 10**14)
+    MAXD = 25
+    for fn in mod.scope.children:
+        if not fn.is_function() or fn.kind != "function" or fn.name in main:
+            continue
+        if len(fn.params()) < 1 or fn.n_required() > 1 or fn.cls is not None:
+            continue
+        results = {}        # degree -> ("1d", cx, cw) | ("2d", X, W) | ("sym", xi, w, s, ws) | ("raise", msg)
+        und = None
+        other = False
+        for d in range(0, MAXD + 1):
+            try:
+                I = fresh_interp(ctx.repo, lobatto=False)
+                I.tolerant = False
+                shifted = _gauss_stubs(I)
+                r = I.call(fn_value(I, fn.qualname), [d], {})
+                if not (isinstance(r, Record) and (r.cls is cls or (r.cls is None and r.tname == cls.name))):
+                    other = True        # returns something else: not a factory of rules
+                    break
+                touch_visited(ctx, I, (QR,))
+                xi, w = I.iterate(r)
+                if not isinstance(xi, Arr) or not isinstance(w, Arr) or w.ndim != 1 or xi.shape[0] != w.shape[0]:
+                    raise EvalError(f"rule is ({xi!r}, {w!r})")
+                cx, cw = [const_of(v) for v in xi.data], [const_of(v) for v in w.data]
+                literal = all(c is not None for c in cx + cw)
+                if xi.ndim == 1 and literal:
+                    results[d] = ("1d", cx, cw)
+                elif xi.ndim == 2 and xi.shape[1] == 2 and literal:
+                    results[d] = ("2d", [(cx[2 * i], cx[2 * i + 1]) for i in range(len(cx) // 2)], cw)
+                elif xi.ndim == 1:
+                    results[d] = ("sym", xi, w) + tuple(shifted(xi.shape[0]))
+                else:
+                    raise EvalError(f"points of shape {xi.shape} with symbolic entries")
+            except Raised as ex:
+                results[d] = ("raise", str(ex))
+            except ERRS as ex:
+                und = und or f"degree {d}: {type(ex).__name__}: {str(ex)[:200]}"
+        if other:
+            continue
+        if und and not results:
+            if not _constructs_class(ctx, fn, cls):
+                continue        # a helper that never builds a rule
+            if _accepts_rule(ctx, fn):
+                continue        # its parameter is a rule / a (points, weights) pair, not a degree: a transformer, reached through the factories
+        cons = f"factory[{fn.name}]:exact-to-requested-degree"
+        if und:
+            ctx.undecided(rule, fn, None, construct=cons, detail=f"{fn.name} may build a {cls.name} but cannot be interpreted: {und}")
+            continue
+        rules_ = {d: v for d, v in results.items() if v[0] != "raise"}
+        if not rules_:
+            ctx.undecided(rule, fn, None, construct=cons, detail=f"{fn.name} raises for every degree 0..{MAXD}: {results[0][1][:120]}")
+            continue
+        sizes = {(v[2].shape[0] if isinstance(v[2], Arr) else len(v[2])) for v in rules_.values()}
+        one_d = all(v[0] in ("1d", "sym") for v in rules_.values())
+        cap = None
+        if one_d and len(sizes) == 1 and len(rules_) > 1:
+            cap = 2 * next(iter(sizes)) - 1         # fixed-size rule: capacity of N Gauss points
+        bad = None
+        unk = None
+        checked = []
+        for d in sorted(rules_):
+            v = rules_[d]
+            if cap is not None and d > cap:
+                continue
+            if v[0] == "1d":
+                err, k = _moment_error_1d(v[1], v[2], d)
+                if err > tol:
+                    live = [(float(x), float(w_)) for x, w_ in zip(v[1], v[2]) if w_ != 0]
+                    bad = bad or (f"for degree {d} it returns the (point, weight) pairs {', '.join(f'({x:.6g}, {w_:.6g})' for x, w_ in live[:8])} which integrate x^{k} "
+                                  f"over [0,1] with error {float(err):.2e}: nodes and weights do not form a rule exact to degree {d}")
+                else:
+                    checked.append(d)
+            elif v[0] == "2d":
+                err, a, b = _moment_error_2d(v[1], v[2], d)
+                if err > tol:
+                    bad = bad or f"for degree {d} the {len(v[2])}-point table integrates x^{a} y^{b} over the unit triangle with error {float(err):.2e}"
+                else:
+                    checked.append(d)
+            else:
+                _, xi, w, s, ws = v
+                n = xi.shape[0]
+                if first_mismatch(xi, s) is None and first_mismatch(w, ws) is None:
+                    if 2 * n - 1 < d:
+                        bad = bad or f"for degree {d} it takes n = {n} Gauss points, exact only to degree {2 * n - 1}"
+                    else:
+                        checked.append(d)
+                    continue
+                aff = _affine_image(xi, w, s, ws)
+                if aff is None:
+                    unk = unk or f"degree {d}: points {show(xi)}, weights {show(w)} are not recognised as a Gauss-Legendre rule"
+                else:
+                    bad = bad or (f"for degree {d} it returns the {n}-point Gauss-Legendre rule mapped by x -> {aff[0]}*x + {aff[1]} with weights scaled by "
+                                  f"{aff[2]}: not a rule on the unit interval")
+        if not bad and not unk and not checked:
+            unk = "no degree could be checked"
+        rng = f"{min(checked)}..{max(checked)}" if checked else "-"
+        ctx.decide(rule, False if bad else (None if unk else True), fn, None, construct=cons,
+                   detail=f"rule returned for every degree {rng} has exact monomial moments up to that degree"
+                          + (f" (fixed size {next(iter(sizes))}: capacity 2N-1 = {cap})" if cap is not None else ""),
+                   bad_detail=f"{fn.name}: {bad or unk}")
+
+
 # ----------------------------------------------------------------------------- g: edge integration
 
 class EdgeFixture:
@@ -1091,6 +1262,18 @@ def variants(repo):
                                                    "    edgeCoords = Mesh.get_edge_coords(functionSpace.mesh, edge)\n    Xq = edgeCoords[0] + np.outer(quadRule.xigauss, edgeCoords[-1] - edgeCoords[0])"), None),
         Variant("dispatch by dictionary", I, sub("    if parentElement.elementType == LINE_ELEMENT:\n        return shape1d(parentElement.degree, parentElement.coordinates, evaluationPoints)\n    elif parentElement.elementType == TRIANGLE_ELEMENT:\n        return shape2d(parentElement.degree, parentElement.coordinates, evaluationPoints)\n    elif",
                                                  "    table = {LINE_ELEMENT: shape1d, TRIANGLE_ELEMENT: shape2d}\n    if parentElement.elementType in table:\n        return table[parentElement.elementType](parentElement.degree, parentElement.coordinates, evaluationPoints)\n    if"), None),
+        # --- sibling factories of quadrature rules (padded / fixed-size 1D rule): nodes and weights are checked as pairs, through the moments
+        Variant("padded 3-point table: nodes in another order than the weights", Q, sub("    xi = np.array([-0.7745966692414834,  0.                ,  0.7745966692414834,", "    xi = np.array([-0.7745966692414834,  0.7745966692414834,  0.                ,"), "f/T7-quadrature-tables"),
+        Variant("padded 4-point table: inner and outer weights exchanged", Q, sub("    w  = np.array([ 0.3478548451374537 ,  0.6521451548625462 ,  0.6521451548625462 ,\n                    0.3478548451374537,   0.])", "    w  = np.array([ 0.6521451548625462 ,  0.3478548451374537 ,  0.3478548451374537 ,\n                    0.6521451548625462,   0.])"), "f/T7-quadrature-tables"),
+        Variant("padded rule: branch list in another order", Q, sub("                  [_gauss_quad_1D_1pt, _gauss_quad_1D_2pt, _gauss_quad_1D_3pt,", "                  [_gauss_quad_1D_3pt, _gauss_quad_1D_2pt, _gauss_quad_1D_1pt,"), "f/T7-quadrature-tables"),
+        Variant("padded rule: weights of the bi-unit interval kept", Q, sub("    return QuadratureRule(0.5*(xi + 1.0), 0.5*w)", "    return QuadratureRule(0.5*(xi + 1.0), w)"), "f/T7-quadrature-tables"),
+        Variant("padded rule: points of the bi-unit interval kept", Q, sub("    return QuadratureRule(0.5*(xi + 1.0), 0.5*w)", "    return QuadratureRule(xi, 0.5*w)"), "f/T7-quadrature-tables"),
+        Variant("padded rule: table selected two points short", Q, sub("    npts = np.ceil((degree + 1)/2).astype(int)", "    npts = np.ceil((degree - 3)/2).astype(int)"), "f/T7-quadrature-tables"),
+        Variant("padded 3-point table: nodes and weights permuted together", Q, sub("    xi = np.array([-0.7745966692414834,  0.                ,  0.7745966692414834,\n                    0.,                  0.])\n    w  = np.array([ 0.5555555555555557,  0.8888888888888888,  0.5555555555555557,",
+                                                                                     "    xi = np.array([-0.7745966692414834,  0.7745966692414834,  0.                ,\n                    0.,                  0.])\n    w  = np.array([ 0.5555555555555557,  0.5555555555555557,  0.8888888888888888,"), None),
+        Variant("padded rule: point count by floor", Q, sub("    npts = np.ceil((degree + 1)/2).astype(int)", "    npts = np.floor(degree/2).astype(int) + 1"), None),
+        Variant("padded rule: tables returned by one helper, mapped before the selection", Q, sub("    xi,w = switch(npts,\n                  [_gauss_quad_1D_1pt, _gauss_quad_1D_2pt, _gauss_quad_1D_3pt,\n                   _gauss_quad_1D_4pt, _gauss_quad_1D_5pt],\n                  None)\n    return QuadratureRule(0.5*(xi + 1.0), 0.5*w)",
+                                                                                                    "    def on_unit_interval(table):\n        def branch(_):\n            x, wt = table(None)\n            return 0.5*x + 0.5, wt/2\n        return branch\n    tables = (_gauss_quad_1D_1pt, _gauss_quad_1D_2pt, _gauss_quad_1D_3pt, _gauss_quad_1D_4pt, _gauss_quad_1D_5pt)\n    xi, w = switch(npts, [on_unit_interval(t) for t in tables], None)\n    return QuadratureRule(xigauss=xi, wgauss=w)"), None),
         Variant("reformat FunctionSpace", F, reformat(), None),
         Variant("reformat QuadratureRule", Q, reformat(), None),
     ]
